@@ -489,3 +489,82 @@ func (ls *Lockset) EntryRequirements() map[*ssa.Function][]string {
 	}
 	return out
 }
+
+// SplitRMW is a check-then-act hazard: a guarded field is read and later written in the same function
+// with an explicit unlock of its mutex on some path in between (the write acts on a stale read).
+type SplitRMW struct {
+	Fn     *ssa.Function
+	Field  string
+	Read   ssa.Instruction
+	Write  ssa.Instruction
+	Unlock ssa.Instruction
+}
+
+// AtomicRMW lists, for every function, the (read, write) pairs of one guarded field and whether an explicit
+// (non-deferred) unlock of the guarding mutex lies on a path from the read to the write.
+func (ls *Lockset) AtomicRMW() (pairs int, split []SplitRMW) {
+	for _, fn := range ls.Funcs {
+		acc := ls.guardedAccesses(fn)
+		byField := map[string][]access{}
+		for _, a := range acc {
+			byField[a.field] = append(byField[a.field], a)
+		}
+		for field, as := range byField {
+			var firstSplit *SplitRMW
+			n := 0
+			for _, r := range as {
+				if r.write {
+					continue
+				}
+				for _, w := range as {
+					if !w.write || w.lock != r.lock || !InstrReaches(r.in, w.in) {
+						continue
+					}
+					n++
+					lock := r.lock
+					u := PathThrough(r.in, w.in, func(x ssa.Instruction) bool {
+						call, ok := x.(*ssa.Call)
+						if !ok {
+							return false
+						}
+						p, acq, _, isLock := lockOp(&call.Call)
+						return isLock && !acq && p == lock
+					})
+					// a path that runs through the read again (next loop iteration) re-validates: only count an
+					// unlock from which the write is reachable without re-executing the read
+					if u != nil && !reachesAvoiding(u, w.in, r.in.Block()) {
+						u = nil
+					}
+					if u != nil && firstSplit == nil {
+						firstSplit = &SplitRMW{Fn: fn, Field: field, Read: r.in, Write: w.in, Unlock: u}
+					}
+				}
+			}
+			if n > 0 {
+				pairs++
+			}
+			if firstSplit != nil {
+				split = append(split, *firstSplit)
+			}
+		}
+	}
+	return pairs, split
+}
+
+// reachesAvoiding: control can flow from just after a to b without entering block avoid (a's own block is
+// allowed for the straight-line part after a).
+func reachesAvoiding(a, b ssa.Instruction, avoid *ssa.BasicBlock) bool {
+	if a.Block() == b.Block() && index(a) < index(b) {
+		return true
+	}
+	av := map[*ssa.BasicBlock]bool{avoid: true}
+	for _, s := range a.Block().Succs {
+		if s == avoid {
+			continue
+		}
+		if s == b.Block() || CanReach(s, b.Block(), av) {
+			return true
+		}
+	}
+	return false
+}
